@@ -77,6 +77,13 @@ let () =
         | _ -> failwith "variant") in
       show_ares a ^ " " ^ show_ctx a.a_ctx
     | _ -> "badargs");
+  (* destx <src> <target> <accel> : LZ4_compress_destSize_extState *)
+  reg "destx" (function [src; target; accel] ->
+      let src = bytes_of_hex src in
+      let srcm = mem_of_list (z 0) src in
+      let a = compress_destSize_internal srcm (len src) (zs target) (zs accel) in
+      show_ares a ^ " " ^ show_ctx a.a_ctx
+    | _ -> "badargs");
   reg "ctxinit" (function _ -> cur_ctx := ctx_init; "ok");
   (* fr <src> <cap> <accel> : LZ4_compress_fast_extState_fastReset on the session context *)
   reg "fr" (function [src; cap; accel] ->
